@@ -9,6 +9,7 @@ pub mod c04;
 pub mod c05;
 pub mod c06;
 pub mod c09;
+pub mod c10;
 pub mod c11;
 pub mod c12;
 pub mod c18;
@@ -23,6 +24,7 @@ pub fn run(prop: &str, args: &Args) -> i32 {
         "C05" => c05::run(args),
         "C06" => c06::run(args),
         "C09" => c09::run(args),
+        "C10" => c10::run(args),
         "C11" => c11::run(args),
         "C12" => c12::run(args),
         "C18" => c18::run(args),
